@@ -17,7 +17,12 @@ TRUSTED = [
     "harness/lib/gentables.py + the verif-tagged hook `yardl-verif tables`)",
     "Model/Expr.v: hand-written typing/evaluation model for integer expressions (+ - * / unary minus), tied by generating records "
     "with computed fields, reading the static types out of generated C++/Python and running the generated Python and C++ methods",
-    "floating point / complex arithmetic, size()/indexing/switch and MATLAB evaluation are not modelled (MATLAB text only); harness",
+    "Model/FloatExpr.v: float64 expressions (+ - * / unary minus) as Flocq binary64 operations, round to nearest even; tied by "
+    "comparing the bit patterns computed by generated Python and generated C++ (g++ -O0, x86-64 SSE2 doubles) with the model; the "
+    "theorems about it depend on the axioms of the standard library's real numbers (Print Assumptions: "
+    "ClassicalDedekindReals.sig_not_dec, sig_forall_dec, FunctionalExtensionality.functional_extensionality_dep, Classical_Prop.classic), "
+    "which Flocq's binary_float carries; Python floats raise ZeroDivisionError where C++ yields inf/nan: such cases are counted, not compared",
+    "float32 / complex arithmetic, size()/indexing/switch and MATLAB evaluation are not modelled (MATLAB text only); harness",
 ]
 INTS = ["int8", "uint8", "int16", "uint16", "int32", "uint32", "int64", "uint64", "size"]
 COQP = gentables.COQ_PRIM
@@ -176,6 +181,7 @@ def run(ctx):
     quick = ctx.tier == "quick"
     rng = ctx.rng
     float_conversion_probe(ctx)
+    float_expr_layer(ctx, 40 if quick else 160, 8 if quick else 30)
     tables = json.loads(ctx.hook_call(["tables"]))
     g = G(rng, tables["common_type"])
     nrec, ncf = (3, 14) if quick else (10, 24)
@@ -352,6 +358,159 @@ def run(ctx):
             ctx.report("model-differs:%s" % ("python" if s == 2 else "cpp"), "Model.Expr.eval_%s disagrees with the generated code on `%s`"
                        % ("py" if s == 2 else "cpp", yardl_expr(t)),
                        dict(rep, broken="correspondence Model.Expr.eval vs generated computed field"), no_input=True)
+
+
+FD = ["da", "db", "dc", "dd"]
+
+
+def float_expr_layer(ctx, n_exprs, n_valsets):
+    """double-typed computed fields: random expression trees (+ - * /, unary minus) over four float64 fields, an int32 field
+    and integer literals, every operator node having a double operand below it (so yardl types it float64); bit patterns of the
+    values computed by generated Python and generated C++ compared with Model.FloatExpr.feval (Flocq binary64) inside Coq"""
+    import struct
+    rng = ctx.rng
+
+    def has_double(t):
+        return t[0] == "d" or (t[0] == "n" and has_double(t[1])) or (t[0] == "b" and (has_double(t[2]) or has_double(t[3])))
+
+    def gen(depth):
+        if depth == 0 or rng.random() < 0.25:
+            r = rng.random()
+            if r < 0.7:
+                return ("d", rng.randrange(4))
+            if r < 0.85:
+                return ("i",)
+            return ("l", rng.choice([0, 1, 2, 3, 7, 10, 100, 255, 70000, -1, -3]))
+        if rng.random() < 0.12:
+            return ("n", gen(depth - 1))
+        return ("b", rng.choice("+-*//"), gen(depth - 1), gen(depth - 1))
+
+    def ok(t):
+        if t[0] == "n":
+            return has_double(t) and ok(t[1])
+        if t[0] == "b":
+            return has_double(t) and ok(t[2]) and ok(t[3])
+        return True
+
+    def text(t):
+        if t[0] == "d":
+            return FD[t[1]]
+        if t[0] == "i":
+            return "ie"
+        if t[0] == "l":
+            return str(t[1]) if t[1] >= 0 else "(%d)" % t[1]
+        if t[0] == "n":
+            return "-(%s)" % text(t[1])
+        return "(%s %s %s)" % (text(t[2]), t[1], text(t[3]))
+
+    def coq(t, ie):
+        if t[0] == "d":
+            return "FField %d" % t[1]
+        if t[0] == "i":
+            return "FOfInt (%d)" % ie
+        if t[0] == "l":
+            return "FOfInt (%d)" % t[1]
+        if t[0] == "n":
+            return "FNeg (%s)" % coq(t[1], ie)
+        return "FBin %s (%s) (%s)" % ({"+": "FAdd", "-": "FSub", "*": "FMul", "/": "FDiv"}[t[1]], coq(t[2], ie), coq(t[3], ie))
+    trees = [("b", "/", ("d", 0), ("d", 1)), ("b", "/", ("d", 0), ("l", 2)), ("b", "/", ("i",), ("d", 1)),
+             ("b", "-", ("d", 0), ("b", "/", ("d", 1), ("d", 2))), ("b", "/", ("d", 0), ("b", "*", ("d", 1), ("d", 2)))]
+    while len(trees) < n_exprs:
+        t = gen(rng.choice([1, 2, 2, 3]))
+        if t[0] in ("b", "n") and ok(t):
+            trees.append(t)
+    names = ["f" + "abcdefghijklmnopqrstuvwxyz"[k // 26] + "abcdefghijklmnopqrstuvwxyz"[k % 26] for k in range(len(trees))]
+    pkg = Package("Cfz")
+    pkg.defs.append(("Rd", "Rd: !record\n  fields:\n" + "".join("    %s: float64\n" % f for f in FD) + "    ie: int32\n  computedFields:\n" +
+                     "\n".join("    %s: %s" % (n, text(t)) for n, t in zip(names, trees))))
+    pkg.protocols.append(("Pz", [("s", __import__("ymodel").prim("int32"), False)]))
+    gp = genrun.GenPackage(ctx, pkg, "cfz", ndjson=False, cpp=True)
+    if not gp.generate():
+        raise RuntimeError("yardl rejected the floating-point computed-field package:\n%s\n%s" % (gp.gen_out[-1500:], pkg.yaml()))
+    hdr = open(os.path.join(gp.dir, "cpp", "generated", "types.h")).read()
+    for n, t in zip(names, trees):
+        m = re.search(r"\n  ([\w:<> ]+?) %s\(\) const \{" % (n[0].upper() + n[1:]), hdr)
+        if not m or m.group(1).strip() != "double":
+            ctx.report("float-static-type", "computed field `%s` over float64 operands is declared %s in C++ (float64 expected)"
+                       % (text(t), m.group(1) if m else None), {"expression": text(t), "model": pkg.yaml()})
+            return
+    EDGE = [0.0, -0.0, 1.0, 2.0, 7.0, -7.0, 0.1, 0.5, 1.0 / 3, 3.5, 1e16, 9007199254740993.0, 1e308, -1e308, 5e-324, 2.2250738585072014e-308,
+            1.7976931348623157e308, float("inf"), float("-inf"), float("nan")]
+
+    def bits(x):
+        return struct.unpack("<Q", struct.pack("<d", x))[0]
+    valsets = []
+    for k in range(n_valsets):
+        pool = EDGE[:13] if k % 3 else EDGE
+        ds = [rng.choice(pool) if rng.random() < 0.6 else rng.uniform(-1000, 1000) for _ in range(4)]
+        valsets.append((ds, rng.choice([0, 1, 2, 7, -3, 100, 16777217, -2147483648])))
+    valsets[0] = ([7.0, 2.0, -7.0, 0.5], 7)
+    prog = ["import sys, json, struct", "sys.path.insert(0, %r)" % os.path.join(gp.dir, "python"), "import cfz", "out = {}",
+            "def bits(x):\n    x = float(x)\n    return -1 if x != x else struct.unpack('<Q', struct.pack('<d', x))[0]"]
+    for vi, (ds, ie) in enumerate(valsets):
+        prog.append("r = cfz.Rd(%s, ie=%d)" % (", ".join("%s=struct.unpack('<d', struct.pack('<Q', %d))[0]" % (f, bits(d)) for f, d in zip(FD, ds)), ie))
+        for n in names:
+            prog.append("try:\n    out['%d %s'] = bits(r.%s())\nexcept Exception as e:\n    out['%d %s'] = 'ERR:' + type(e).__name__" % (vi, n, n, vi, n))
+    prog.append("print(json.dumps(out))")
+    open(os.path.join(gp.dir, "runf.py"), "w").write("\n".join(prog))
+    rc, o, e = sh([PY_VT, "-W", "ignore", os.path.join(gp.dir, "runf.py")], timeout=300)
+    if rc != 0:
+        raise RuntimeError("generated Python floating-point computed fields failed to run: " + e[-1500:])
+    pyres = json.loads(o)
+    cpp = ['#include <iostream>', '#include <cstring>', '#include <cstdint>', '#include <cmath>', '#include "generated/types.h"',
+           "static long long bits(double x) { if (std::isnan(x)) return -1; uint64_t u; std::memcpy(&u, &x, 8); return (long long)u; }",
+           "static double fromb(uint64_t u) { double x; std::memcpy(&x, &u, 8); return x; }", "int main() {"]
+    for vi, (ds, ie) in enumerate(valsets):
+        cpp.append("  { cfz::Rd r; %s r.ie = %d;" % (" ".join("r.%s = fromb(%dULL);" % (f, bits(d)) for f, d in zip(FD, ds)), ie))
+        for n in names:
+            cpp.append('    std::cout << "%d %s " << (unsigned long long)bits(r.%s()) << "\\n";' % (vi, n, n[0].upper() + n[1:]))
+        cpp.append("  }")
+    cpp += ["  return 0;", "}"]
+    cdir = os.path.join(gp.dir, "cpp")
+    open(os.path.join(cdir, "cfz.cc"), "w").write("\n".join(cpp))
+    rc, o, e = sh(["g++", "-std=c++17", "-O0", "-w", "-I", genrun.SHIMS, "-I", "generated", "cfz.cc", "generated/types.cc", "-o", "cfz"],
+                  cwd=cdir, timeout=900)
+    if rc != 0:
+        ctx.report("cpp-compile", "generated C++ with floating-point computed fields does not compile", {"model": pkg.yaml(), "error": e[-2000:]})
+        return
+    rc, o, e = sh([os.path.join(cdir, "cfz")], timeout=120)
+    cppres = {}
+    for ln in o.strip().split("\n"):
+        a, b, v = ln.split()
+        v = int(v)
+        cppres["%s %s" % (a, b)] = -1 if v == 2 ** 64 - 1 else v
+    cases, meta = [], []
+    for vi, (ds, ie) in enumerate(valsets):
+        for n, t in zip(names, trees):
+            key = "%d %s" % (vi, n)
+            pv, cv = pyres.get(key), cppres.get(key)
+            if isinstance(pv, str):
+                ctx.count("float_python_exception", pv)     # ZeroDivisionError: Python floats raise where C++ gives inf/nan
+                continue
+            cases.append("([%s], %s, (%d), (%d))" % ("; ".join(str(bits(d)) for d in ds), coq(t, ie), pv, cv))
+            meta.append((n, t, ds, ie, pv, cv))
+    shards = [list(range(i, min(i + 150, len(cases)))) for i in range(0, len(cases), 150)]
+
+    def ev(idx):
+        body = ("From Coq Require Import List NArith ZArith Bool.\nImport ListNotations.\nOpen Scope Z_scope.\n"
+                "From YV Require Import Model.FloatExpr.\n"
+                "Definition cases : list fcase := [\n " + ";\n ".join(cases[i] for i in idx) + "\n].\n"
+                "Definition ST := Eval vm_compute in map fcase_status cases.\nPrint ST.\n")
+        return Ctx.parse_nat_list(ctx.coq_eval("fc_%d" % idx[0], body, timeout=1500), "ST")
+    with ThreadPoolExecutor(max_workers=8) as ex:
+        st = [x for r in ex.map(ev, shards) for x in r]
+    for (n, t, ds, ie, pv, cv), s_ in zip(meta, st):
+        ctx.case(("float", text(t), tuple(bits(d) for d in ds), ie), nontrivial=True,
+                 sample={"expression": text(t), "fields": dict(zip(FD, [repr(d) for d in ds]), ie=ie), "python_bits": pv, "cpp_bits": cv,
+                         "agrees_with_model": s_ == 0})
+        ctx.count("float_has_division", str("/" in text(t)))
+        ctx.count("float_result", "nan" if pv == -1 else ("inf" if pv in (0x7FF0000000000000, 0xFFF0000000000000) else "finite"))
+        if s_ != 0:
+            who = {1: "generated Python", 2: "generated C++", 3: "generated Python and C++"}[s_]
+            ctx.report("float-wrong-value:%d" % s_, "floating-point computed field `%s` on %s, ie=%d: %s differ(s) from the correctly "
+                       "rounded value (python bits %s, c++ bits %s)" % (text(t), [repr(d) for d in ds], ie, who, pv, cv),
+                       {"expression": text(t), "fields": dict(zip(FD, [repr(d) for d in ds])), "ie": ie, "python_bits": pv,
+                        "cpp_bits": cv, "model": pkg.yaml()})
 
 
 def float_conversion_probe(ctx):
